@@ -68,6 +68,9 @@ def stage_events(prog, fn, arg_name="model"):
                 if dominating_conditions(body, b):
                     raise AnalysisError("purge stage call under a branch in %s" % fn.path)
                 events.append((order[b], 10 ** 6, "call", cid, None, fn.loc(t.get("ln"))))
+            elif cid in prog.fns and (prog.fns[cid].raw.get("inputs") or [""])[0] == "&mut types::model::Model" and prog.fns[cid].path.startswith("bemodel::purge::"):
+                raise AnalysisError("purge stage %s takes %s: stages that receive precomputed reference sets (or other extra arguments) are not read by this rule; "
+                                    "which set protects which collection, and when it was collected, cannot be decided" % (prog.fns[cid].path.split("::")[-1], prog.fns[cid].raw.get("inputs")))
             else:
                 # any other call receiving &mut model or a &mut field of it
                 for a in t["args"]:
